@@ -237,6 +237,14 @@ def op_getitem(c, o):
         res = r[W(int(idx[1]))] if not o.get("npint") else r[W(RAW_NP[idt](idx[1]))]
     elif k == "list":
         res = r[W([int(i) for i in idx[1]])] if o.get("listkind", "list") == "list" else r[W(np.array(idx[1], dtype=RAW_NP[idt]))]
+    elif k == "list2d":
+        m = np.array([[int(v) for v in row] for row in idx[1]], dtype=np.int64)
+        lay = o.get("mlayout", "C")                 # the same index matrix in column-major / transposed-view layout
+        m = np.asfortranarray(m) if lay == "F" else np.ascontiguousarray(m.T).T if lay == "T" else m
+        keep = m.copy()
+        res = r[W(m)]
+        if not np.array_equal(m, keep):
+            return ["mutated", "the caller's index array was changed"]
     elif k == "mask":
         res = r[W(np.array(idx[1], dtype=bool))]
     elif k == "rlmask":
